@@ -136,6 +136,15 @@ where
     let ex = quals_extras(p.qualifiers());
     let all = ex.as_object().map(|m| m.values().all(|b| b == &Value::Bool(true))).unwrap_or(false);
     ctx.check("C04", "qualifiers retrievable by key, iterate both ways", inst, all, &null, &ex);
+    // C12: reading the checksum back through the typed accessor gives the same entries
+    if let Some(text) = p.qualifiers().get("checksum") {
+        let typed = p.qualifiers().try_get_typed::<purl::qualifiers::well_known::Checksum>();
+        let again = match typed {
+            Ok(Some(ck)) => purl::SmallString::try_from(ck).ok().map(|s| s.to_string()),
+            _ => None,
+        };
+        ctx.check("C12", "typed accessor re-serialises to the PURL's checksum text", inst, again.as_deref() == Some(text), &json!(text), &json!(again));
+    }
     // accessors never report an empty string
     let acc_ok = p.namespace() != Some("") && p.version() != Some("") && p.subpath() != Some("");
     ctx.check("C04", "optional accessors never Some(\"\")", inst, acc_ok, &null, obs);
@@ -972,6 +981,162 @@ pub fn run_comb(ctx: &mut Ctx, case: &Value) {
     }
 }
 
+// --------------------------------------------------------------------------- typed checksum value
+
+fn ck_entries(ck: &purl::qualifiers::well_known::Checksum) -> Value {
+    let mut es: Vec<(String, String)> = ck.iter().map(|(a, h)| (a.to_owned(), h.raw().to_owned())).collect();
+    es.sort();
+    let mut names: Vec<String> = ck.algorithms().map(|a| a.to_owned()).collect();
+    names.sort();
+    let same = names == es.iter().map(|(a, _)| a.clone()).collect::<Vec<_>>();
+    if !same {
+        return json!("iter() and algorithms() disagree");
+    }
+    Value::Array(es.iter().map(|(a, h)| json!([cps(a), cps(h)])).collect())
+}
+
+pub fn apply_ckop(ck: &mut purl::qualifiers::well_known::Checksum<'static>, op: &Value) -> Value {
+    use purl::qualifiers::well_known::Checksum;
+    let name = op[0].as_str().unwrap_or("");
+    let a = from_cps(&op[1]);
+    match name {
+        "insert_raw" => {
+            ck.insert_raw(&a, from_cps(&op[2]));
+            json!({"unit": true})
+        },
+        "insert_bytes" => {
+            let bytes: Vec<u8> = op[2].as_array().map(|x| x.iter().map(|b| b.as_u64().unwrap_or(0) as u8).collect()).unwrap_or_default();
+            ck.insert(&a, bytes);
+            json!({"unit": true})
+        },
+        "remove" => {
+            ck.remove(&a);
+            json!({"unit": true})
+        },
+        "get_raw" => {
+            let r = ck.get_raw(&a);
+            let v = ck.get_value(&a).map(|v| v.raw().to_owned());
+            if r.map(|x| x.to_owned()) != v {
+                json!("get_raw and get_value disagree")
+            } else {
+                opt_json(r)
+            }
+        },
+        "get_bytes" => match ck.get::<Vec<u8>>(&a) {
+            Err(_) => json!({"ok": false, "err": "FromHexError"}),
+            Ok(None) => json!({"ok": true, "some": false}),
+            Ok(Some(b)) => json!({"ok": true, "some": true, "bytes": b}),
+        },
+        "entries" => json!({"entries": ck_entries(ck)}),
+        "to_text" => match purl::SmallString::try_from(ck.clone()) {
+            Ok(s) => json!({"ok": true, "s": cps(&s)}),
+            Err(e) => json!({"ok": false, "err": e.err_name()}),
+        },
+        "from_text" => {
+            // Checksum<'a> borrows the text: leak it (test process, bounded number of cases)
+            let text: &'static str = Box::leak(a.into_boxed_str());
+            match Checksum::try_from(text) {
+                Ok(n) => {
+                    *ck = n;
+                    json!({"ok": true})
+                },
+                Err(e) => json!({"ok": false, "err": e.err_name()}),
+            }
+        },
+        other => {
+            eprintln!("unknown checksum op {:?}", other);
+            std::process::exit(2);
+        },
+    }
+}
+
+pub fn run_ckop(ctx: &mut Ctx, case: &Value) {
+    use purl::qualifiers::well_known::Checksum;
+    let mut ck = Checksum::default();
+    let mut pre = pairs_of(&case["pre"]);
+    pre.reverse();
+    for (a, h) in pre {
+        ck.insert_raw(&a, h);
+    }
+    let before = ck_entries(&ck);
+    if !ctx.check("C12", "map built by raw inserts holds the given entries", "Checksum", before == case["pre"], &case["pre"], &before) {
+        return;
+    }
+    let r = catch_unwind(AssertUnwindSafe(|| apply_ckop(&mut ck, &case["op"])));
+    let res = match r {
+        Ok(v) => v,
+        Err(_) => json!({"panic": true}),
+    };
+    ctx.check("C06", "no panic", "Checksum", res.get("panic").is_none(), &case["res"], &res);
+    ctx.check("C12", "result of the call", "Checksum", res == case["res"], &case["res"], &res);
+    let post = ck_entries(&ck);
+    ctx.check("C12", "entries after the call", "Checksum", post == case["post"], &case["post"], &post);
+    if ctx.samples.len() < 2 {
+        ctx.samples.push(json!({"kind": "checksum transition", "case": case}));
+    }
+}
+
+// --------------------------------------------------------------------------- user-supplied shapes (C14)
+
+pub fn run_shape(ctx: &mut Ctx, case: &Value) {
+    use crate::shapes::{self, TestErr, TestShape};
+    let shp = &case["shape"];
+    shapes::set_params(shapes::Params {
+        conv: shp["conv"] == json!(true),
+        fin: shp["fin"] == json!(true),
+        edits: shp["edits"].as_array().cloned().unwrap_or_default(),
+    });
+    let _ = shapes::take_log();
+    let input = &case["input"];
+    let parse = input["entry"] == json!("parse");
+    let shape_json = json!({"conv": shp["conv"], "fin": shp["fin"], "edits": shp["edits"]});
+    let r = if parse {
+        let s = from_cps(&input["s"]);
+        shapes::log(json!({"ev": "begin", "entry": "parse", "s": input["s"], "shape": shape_json}));
+        catch_unwind(AssertUnwindSafe(|| GenericPurl::<TestShape>::from_str(&s)))
+    } else {
+        shapes::log(json!({"ev": "begin", "entry": "build", "st": input["st"], "parts": input["parts"], "shape": shape_json}));
+        let t = TestShape { ty: from_cps(&input["st"]) };
+        catch_unwind(AssertUnwindSafe(|| -> Result<GenericPurl<TestShape>, TestErr> {
+            let b = builder_in_state(t, &input["parts"]);
+            b.build()
+        }))
+    };
+    let p = match &r {
+        Ok(Ok(p)) => Some(p.clone()),
+        _ => None,
+    };
+    let obs = outcome::<TestShape, TestErr>(r);
+    shapes::log(json!({"ev": "end", "out": obs}));
+    let calls = shapes::take_log();
+    let nconv = calls.iter().filter(|e| e["ev"] == json!("conv")).count();
+    let nfin = calls.iter().filter(|e| e["ev"] == json!("finish")).count();
+    let exp = &case["out"];
+    // the only panic the model allows here is Display with an invalid type string
+    let display_panic = obs["str"].get("panic").is_some();
+    ctx.check("C06", "panics only where documented (Display with an invalid user type string)", "TestShape",
+              obs.get("panic").is_none() && display_panic == exp["str"].get("panic").is_some(), exp, &obs);
+    ctx.check("C14", "outcome with a user-supplied shape (errors returned unchanged, hook's parts reported, generic checks after)", "TestShape",
+              &obs == exp, exp, &obs);
+    ctx.check("C14", "conversion called as often as the protocol allows", "TestShape", json!(nconv) == case["nconv"], &case["nconv"], &json!(nconv));
+    ctx.check("C14", "finish hook called as often as the protocol allows", "TestShape", json!(nfin) == case["nfin"], &case["nfin"], &json!(nfin));
+    if let Some(p) = &p {
+        if !display_panic {
+            universal_noparse(ctx, "TestShape", p, &obs, &[&exp["v"]], "shape");
+        }
+        let ex = quals_extras(p.qualifiers());
+        let all = ex.as_object().map(|m| m.values().all(|b| b == &Value::Bool(true))).unwrap_or(false);
+        ctx.check("C04", "qualifiers retrievable by key (user shape)", "TestShape", all, &Value::Null, &ex);
+    }
+    // the recorded calls are the trace: one event per line, validated by Trace_Shapes.tla
+    for ev in calls {
+        ctx.event(ev);
+    }
+    if ctx.samples.len() < 2 {
+        ctx.samples.push(json!({"kind": "user shape session", "input": input, "shape": shape_json, "observed": obs, "conversions": nconv, "hooks": nfin}));
+    }
+}
+
 #[derive(Default, Clone)]
 pub struct Opts {
     pub serde: bool,
@@ -985,6 +1150,8 @@ pub fn run_case(ctx: &mut Ctx, case: &Value, opts: &Opts) {
         "bseq" => run_bseq(ctx, case),
         "qop" => run_qop(ctx, case),
         "qseq" => run_qseq(ctx, case),
+        "ckop" => run_ckop(ctx, case),
+        "shape" => run_shape(ctx, case),
         #[cfg(feature = "pt")]
         "tlookup" => run_tlookup(ctx, case),
         #[cfg(feature = "pt")]
